@@ -39,12 +39,15 @@ DU = "intf/dummy.py"
 # what each property's hand model transcribes (file, class, function)
 _SERIAL = [(SF, "SerialFrame", f) for f in ("__init__", "hdr_find", "hdr_decode", "foot_validate", "frame_decode", "frame_create")]
 _RECV = [(PR, "ParseRecv", "recv_handle")]
-_REASM = [(COMM, "CommHandler", f) for f in ("_read_hdr", "_read_frame", "_recv_thread")]
+_REASM = [(COMM, "CommHandler", f) for f in ("_read_hdr", "_read_frame", "_recv_thread")] + \
+         [(PA, "Parser", "frame_is_ack"), (PA, "Parser", "frame_is_stream")]
 _REQ = [(PA, "Parser", f) for f in ("_frame_set_data", "_frame_set_single", "_frame_set_bulk", "_frame_set_all", "frame_start",
                                     "frame_cmninfo", "frame_chinfo", "frame_enable", "frame_div")] + \
        [(PR, "ParseRecv", f) for f in ("frame_set_decode", "frame_start_decode", "frame_enable_decode", "frame_div_decode")]
 _INFO = [(PA, "Parser", f) for f in ("frame_cmninfo_decode", "frame_chinfo_decode", "frame_ack_decode")] + \
-        [(PR, "ParseRecv", f) for f in ("frame_cmninfo_encode", "frame_chinfo_encode", "frame_ack_encode")] + \
+        [(PR, "ParseRecv", f) for f in ("frame_cmninfo_encode", "frame_chinfo_encode", "frame_ack_encode", "_cmninfo_data_encode",
+                                         "_chinfo_data_encode")] + \
+        [(PA, "Parser", "frame_is_ack"), (PA, "Parser", "frame_is_stream")] + \
         [(DEV, "DDeviceChannelData", "__post_init__"), (DEV, "DDeviceData", "__post_init__"), (DEV, "DeviceChannel", "__init__")]
 _CFG = [(COMM, "CommHandler", f) for f in ("_channel_enable", "_channel_div", "_nxslib_channels_enable", "_nxslib_channels_div",
                                             "_ch_divider_default", "_channels_init", "channels_write", "ch_enable", "ch_disable",
@@ -99,7 +102,9 @@ PINS = {
     "C11": _LIFE + _CFG,
     "C12": _CFG + _FAN,
     "C13": _THREAD,
-    "C14": _DUMMY + _RECV,
+    "C14": _DUMMY + _RECV + [(PR, "ParseRecv", f) for f in ("_cmninfo_data_encode", "_chinfo_data_encode", "frame_cmninfo_encode",
+                                                           "frame_chinfo_encode", "frame_ack_encode", "frame_set_decode",
+                                                           "frame_start_decode", "frame_enable_decode", "frame_div_decode")],
     "C15": _STREAMENC + _STREAMDEC,
     "C16": _DUMMY,
     "C17": _PAD + _RECV + _SERIAL + [(PA, "Parser", f) for f in ("__init__", "_frame_set_data", "_frame_set_single", "_frame_set_bulk",
@@ -108,7 +113,10 @@ PINS = {
            [(DU, "DummyDev", "_write"), (DU, "DummyDev", "_thread_recv")],
     "C18": _SERIALDEV,
     "C19": _REC + [(DEV, "Device", "__init__"), (DEV, "Device", "channel_get"), (DEV, "DeviceChannel", "__init__")],
-    "C20": _REASM + _RECV + [(PA, "Parser", "__init__"), (PR, "ParseRecv", "__init__")],
+    "C20": _REASM + _RECV + [(PA, "Parser", "__init__"), (PR, "ParseRecv", "__init__")] + _REQ +
+           [(PA, "Parser", f) for f in ("frame_is_ack", "frame_is_stream", "frame_ack_decode", "frame_cmninfo_decode",
+                                        "frame_chinfo_decode", "frame_stream_decode")] +
+           [(PR, "ParseRecv", f) for f in ("frame_cmninfo_encode", "frame_chinfo_encode", "frame_ack_encode", "frame_stream_encode")],
 }
 
 
@@ -135,6 +143,22 @@ def pin_text(tree, cls, fn):
         deco = " ".join("@" + ast.unparse(d) for d in f.decorator_list)
         parts.append(f"{deco} def {fn}({sig_text(f)}):".strip() + "\n" + body_text(f))
     return "\n".join(parts) + "\n"
+
+
+def members_text(tree, cls):
+    """bases and the names of everything defined in the class body (methods, class attributes), in order"""
+    c = find_class(tree, cls)
+    out = ["bases: " + ", ".join(ast.unparse(b) for b in c.bases)]
+    for n in c.body:
+        if isinstance(n, (ast.FunctionDef, ast.AsyncFunctionDef)):
+            out.append("def " + n.name)
+        elif isinstance(n, ast.ClassDef):
+            out.append("class " + n.name)
+        elif isinstance(n, ast.Assign):
+            out.append("attr " + ", ".join(ast.unparse(t) for t in n.targets))
+        elif isinstance(n, ast.AnnAssign):
+            out.append("attr " + ast.unparse(n.target))
+    return "\n".join(out) + "\n"
 
 
 def pin_path(rel, cls, fn):
@@ -170,6 +194,27 @@ def gen_pins_for(pid):
                     raise Missing(f"{rel}: {cls + '.' if cls else ''}{fn} is not the function the model was validated against")
                 return "true"
             o.d(nm, "Bool", check)
+        # the member lists of the classes involved: a method ADDED to a class (an override in a subclass, a new dunder) is
+        # invisible to per-function pins
+        classes = []
+        for rel, cls, fn in PINS[pid]:
+            if cls and (rel, cls) not in classes:
+                classes.append((rel, cls))
+        for rel, cls in classes:
+            nm = fact_name(rel, cls, "members") + "_"
+            names.append(nm)
+
+            def check_members(rel=rel, cls=cls):
+                if rel not in trees:
+                    trees[rel] = parse(repo, rel)
+                try:
+                    want = open(pin_path(rel, cls, "=members"), encoding="utf-8").read()
+                except FileNotFoundError:
+                    raise Missing(f"no member snapshot for {rel}:{cls}")
+                if members_text(trees[rel], cls) != want:
+                    raise Missing(f"{rel}: class {cls} has other members / bases than the class the model was validated against")
+                return "true"
+            o.d(nm, "Bool", check_members)
         o.raw("/-- every function the hand-written model of this property transcribes is textually the one it was validated against -/")
         o.raw("def all : Bool := " + (" && ".join(names) if names else "true"))
         return o
@@ -196,6 +241,14 @@ def snapshot(repo=REPO):
                 with open(p, "w", encoding="utf-8") as f:
                     f.write(txt)
                 n += 1
+            if cls:
+                pm = pin_path(rel, cls, "=members")
+                keep.add(os.path.basename(pm))
+                tm = members_text(trees[rel], cls)
+                if not os.path.exists(pm) or open(pm, encoding="utf-8").read() != tm:
+                    with open(pm, "w", encoding="utf-8") as f:
+                        f.write(tm)
+                    n += 1
     for f in os.listdir(PINDIR):
         if f not in keep:
             os.unlink(os.path.join(PINDIR, f))
